@@ -171,6 +171,11 @@ pub fn decode(t: &mut Tape) -> Case {
                 // return through a link-register-like, non-parameter register
                 _ => vec![jmp(jt, Jmp::Return(evar(&var("RBX", 8))))],
             };
+            if matches!(jmps.first().map(|j| &j.term), Some(Jmp::Call { .. }) | Some(Jmp::CallInd { .. })) {
+                // x86 CALL: push the return address (the analyses model the callee's `ret` popping it)
+                defs.push(assign(instr_tid(bbase + 0x1d, 0), &var("RSP", 8), ebin(BinOpType::IntSub, evar(&var("RSP", 8)), econst(8, 8))));
+                defs.push(store(instr_tid(bbase + 0x1d, 1), evar(&var("RSP", 8)), econst((bbase + 0x20) as i128, 8)));
+            }
             let mut b = blk(blk_tid(bbase), defs, jmps);
             if let Some(Term { term: Jmp::BranchInd(_), .. }) = b.term.jmps.first() {
                 let nh = g.t.below(3);
